@@ -1,6 +1,7 @@
 import N0Verif.Proofs.CsvFile
 import N0Verif.Proofs.CsvEnc
 import N0Verif.Proofs.CsvReader
+import N0Verif.Proofs.CsvFileBin
 /-!
 # C14 — loading a CSV file reproduces the saved table under every header mode
 
@@ -784,6 +785,240 @@ theorem C14_keep_empty_lines_positional (d : Char) (hd : GoodDelim14 d) (eol : S
     | cons _ _ => rfl
   simp [List.map_map, this]
 
+/-! ## the strip options in binary read mode (finding C14-g)
+
+In binary mode the cells are `bytes`; `strip_field` / `strip_line` call `bytes.strip()`, which
+removes ASCII blanks only (`asciiStrip`), while text mode removes every `str.isspace()` character
+(`pyStrip`: also `\x1c`–`\x1f`, U+0085, U+00A0, U+2003 …).  So "binary read mode yields the same
+table as encoded bytes" holds under the strip options exactly outside the class of C14-g
+(`EdgeAscii`: `str.strip()` removes from the cell what `bytes.strip()` removes). -/
+
+/-- a cell outside the class of C14-g: `str.strip()` removes from it exactly what `bytes.strip()`
+removes (no `\x1c`–`\x1f`, U+0085, U+00A0 … at an edge once the ASCII blanks are gone) -/
+def EdgeAscii (f : Str) : Prop := pyStrip f = asciiStrip f
+
+/-- **C14 (strip_field, binary read mode: what the code does).**  On any byte table,
+`strip_field=True` with `read_mode='b'` yields the table of `bytes.strip()`-ed names and cells. -/
+theorem C14_strip_field_binary (d : Char) (hd : GoodDelim14 d) (eol : Str) (he : Eol eol)
+    (hdr : List Str) (hne : hdr ≠ []) (hnd : (hdr.map asciiStrip).Nodup) (rows : List (List Str))
+    (hc : NoBreakRows (hdr :: rows))
+    (o : Opts) (hp : StripFieldBin o d) (hcn : o.columnNames = .none)
+    (hm : FromFile o (hdr.map asciiStrip)) :
+    records (loadCsv o (fileOf false d eol (some hdr) rows))
+      = .ok ((dataRows rows).map
+          (fun r => zipPad ((hdr.map asciiStrip).map Key.name) (r.map asciiStrip))) := by
+  obtain ⟨n, hn, hcn', hdec⟩ := fromFile_norm o (hdr.map asciiStrip) hcn hm
+  unfold fileOf withBom
+  simp only [Bool.false_eq_true, if_false]
+  rw [saveCsv_header d eol hdr rows hne,
+    csvb_loadCsv_strip_field o d hd.1 hp eol he (hdr :: rows) hc n hn hdr
+      (dataRows rows) (dataRows_cons_ne hdr rows hne),
+    outcome_header o n _ _ hdec hnd hcn', List.map_map]
+  rfl
+
+/-- the full statement "binary read mode yields the same table as encoded bytes" under
+`strip_field=True`: reading the encoded bytes of a saved table in binary mode gives the records
+of `C14_strip_field` (the table of `str.strip()`-ed names and cells), encoded.  **False**
+(`C14_binary_strip_field_cex`, finding C14-g); proved outside the class of the finding as
+`C14_binary_strip_field_partial`. -/
+def C14_binary_strip_field_stmt : Prop :=
+  ∀ (e : Char → Str), AsciiTransparent e → ∀ (d : Char), GoodDelim14 d → d.toNat < 128 →
+  ∀ (eol : Str), Eol eol → ∀ (hdr : List Str), hdr ≠ [] →
+    (hdr.map (fun f => encS e (pyStrip f))).Nodup → ∀ (rows : List (List Str)),
+    NoBreakRows (hdr :: rows) →
+  ∀ (o : Opts), StripFieldBin o d → o.columnNames = .none →
+    FromFile o (hdr.map (fun f => encS e (pyStrip f))) →
+    records (loadCsv o (encS e (fileOf false d eol (some hdr) rows)))
+      = .ok ((dataRows rows).map (fun r =>
+          zipPad ((hdr.map (fun f => encS e (pyStrip f))).map Key.name)
+            (r.map (fun f => encS e (pyStrip f)))))
+
+/-- **C14 (binary read mode = encoded text-mode table, strip_field; outside C14-g).**  For every
+ASCII-transparent byte encoder and every table none of whose names / cells has a non-ASCII-blank
+`str.isspace()` character at an edge (`EdgeAscii`), `strip_field=True` in binary mode on the
+encoded file yields the text-mode records of `C14_strip_field`, encoded. -/
+theorem C14_binary_strip_field_partial (e : Char → Str) (he : AsciiTransparent e) (d : Char)
+    (hd : GoodDelim14 d) (hda : d.toNat < 128) (eol : Str) (heol : Eol eol)
+    (hdr : List Str) (hne : hdr ≠ [])
+    (hnd : (hdr.map (fun f => encS e (pyStrip f))).Nodup) (rows : List (List Str))
+    (hc : NoBreakRows (hdr :: rows))
+    (hedge : ∀ r ∈ hdr :: rows, ∀ f ∈ r, EdgeAscii f)
+    (o : Opts) (hp : StripFieldBin o d) (hcn : o.columnNames = .none)
+    (hm : FromFile o (hdr.map (fun f => encS e (pyStrip f)))) :
+    records (loadCsv o (encS e (fileOf false d eol (some hdr) rows)))
+      = .ok ((dataRows rows).map (fun r =>
+          zipPad ((hdr.map (fun f => encS e (pyStrip f))).map Key.name)
+            (r.map (fun f => encS e (pyStrip f))))) := by
+  have hcell : ∀ r ∈ hdr :: rows, r.map (fun f => encS e (pyStrip f))
+      = (r.map (encS e)).map asciiStrip := by
+    intro r hr
+    rw [List.map_map]
+    apply List.map_congr_left
+    intro f hf
+    simp only [Function.comp]
+    rw [csvb_asciiStrip_encS e he f, ← hedge r hr f hf]
+  have hh := hcell hdr (by simp)
+  rw [C14_encoding_commutes e he d hda eol heol (some hdr) rows]
+  simp only [Option.map_some]
+  have hc' : NoBreakRows (hdr.map (encS e) :: encRows e rows) := by
+    have := noBreakRows_enc e he (hdr :: rows) hc
+    simpa [encRows] using this
+  rw [hh] at hnd hm ⊢
+  rw [C14_strip_field_binary d hd eol heol (hdr.map (encS e)) (by simpa using hne) hnd
+    (encRows e rows) hc' o hp hcn hm, csvb_dataRows_encRows]
+  congr 1
+  unfold encRows
+  rw [List.map_map]
+  apply List.map_congr_left
+  intro r hr
+  have hr' : r ∈ hdr :: rows := by
+    have : r ∈ rows := by
+      unfold dataRows at hr
+      exact (List.mem_filter.mp hr).1
+    simp [this]
+  simp only [Function.comp]
+  rw [hcell r hr']
+
+/-- **C14 (strip_field, binary read mode, positional).**  The same without a header. -/
+theorem C14_strip_field_binary_positional (d : Char) (hd : GoodDelim14 d) (eol : Str) (he : Eol eol)
+    (rows : List (List Str)) (hc : NoBreakRows rows) (first : List Str)
+    (rest : List (List Str)) (hrows : dataRows rows = first :: rest)
+    (o : Opts) (hp : StripFieldBin o d) (hm : NoHeaderOpts o) :
+    records (loadCsv o (fileOf false d eol none rows))
+      = .ok ((first :: rest).map (fun r => zipPad (positions first.length) (r.map asciiStrip))) := by
+  obtain ⟨n, hn, hcn', hdec⟩ := noHeader_norm o hm (first.map asciiStrip)
+  unfold fileOf withBom
+  simp only [Bool.false_eq_true, if_false]
+  rw [saveCsv_none,
+    csvb_loadCsv_strip_field o d hd.1 hp eol he rows hc n hn first rest hrows]
+  have hdn : dataNames n (first.map asciiStrip) = positions first.length := by
+    simp [dataNames, hcn']
+  rw [outcome_data o n _ _ hdec (by rw [hdn]; exact nodup_positions _), hdn]
+  simp [List.map_map]
+
+/-- **C14 (binary read mode = encoded text-mode table, strip_field, positional; outside C14-g).**
+The records of `C14_strip_field_positional`, encoded. -/
+theorem C14_binary_strip_field_positional_partial (e : Char → Str) (he : AsciiTransparent e)
+    (d : Char) (hd : GoodDelim14 d) (hda : d.toNat < 128) (eol : Str) (heol : Eol eol)
+    (rows : List (List Str)) (hc : NoBreakRows rows) (first : List Str) (rest : List (List Str))
+    (hrows : dataRows rows = first :: rest)
+    (hedge : ∀ r ∈ rows, ∀ f ∈ r, EdgeAscii f)
+    (o : Opts) (hp : StripFieldBin o d) (hm : NoHeaderOpts o) :
+    records (loadCsv o (encS e (fileOf false d eol none rows)))
+      = .ok ((first :: rest).map (fun r =>
+          zipPad (positions first.length) (r.map (fun f => encS e (pyStrip f))))) := by
+  have hcell : ∀ r ∈ rows, r.map (fun f => encS e (pyStrip f))
+      = (r.map (encS e)).map asciiStrip := by
+    intro r hr
+    rw [List.map_map]
+    apply List.map_congr_left
+    intro f hf
+    simp only [Function.comp]
+    rw [csvb_asciiStrip_encS e he f, ← hedge r hr f hf]
+  rw [C14_encoding_commutes e he d hda eol heol none rows]
+  simp only [Option.map_none]
+  have hrows' : dataRows (encRows e rows) = first.map (encS e) :: encRows e rest := by
+    rw [csvb_dataRows_encRows, hrows]; rfl
+  rw [C14_strip_field_binary_positional d hd eol heol (encRows e rows)
+    (noBreakRows_enc e he rows hc) _ _ hrows' o hp hm]
+  congr 1
+  have hmem : ∀ r ∈ first :: rest, r ∈ rows := by
+    intro r hr
+    rw [← hrows] at hr
+    unfold dataRows at hr
+    exact (List.mem_filter.mp hr).1
+  have : first.map (encS e) :: encRows e rest = (first :: rest).map (List.map (encS e)) := rfl
+  rw [this, List.map_map, List.length_map]
+  apply List.map_congr_left
+  intro r hr
+  simp only [Function.comp]
+  rw [hcell r (hmem r hr)]
+
+private def nbsp : Char := Char.ofNat 0xA0
+private def bC2 : Char := Char.ofNat 0xC2
+private def fsep : Char := Char.ofNat 0x1C
+
+/-- **C14-g, on the model** (the code does the same: replayed by the harness).  The file
+`x\xa0` + LF (UTF-8 bytes `78 C2 A0 0A`), `strip_field=True`: text mode yields the cell `x`,
+binary mode the bytes `78 C2 A0` — not the encoding of `x`.  The file `\x1c` + LF with
+`strip_line=True`: text mode sees only blank lines (`EOFError`), binary mode yields a record. -/
+theorem C14_binary_strip_cex :
+    records (loadCsv { stripField := true } ['x', nbsp, '\n']) = .ok [[(.pos 0, some ['x'])]]
+    ∧ records (loadCsv { stripField := true, binary := true } ['x', bC2, nbsp, '\n'])
+        = .ok [[(.pos 0, some ['x', bC2, nbsp])]]
+    ∧ loadCsv { stripLine := true } [fsep, '\n'] = .error .EOFError
+    ∧ records (loadCsv { stripLine := true, binary := true } [fsep, '\n'])
+        = .ok [[(.pos 0, some [fsep])]] :=
+  ⟨by decide, by decide, by decide, by decide⟩
+
+/-- a UTF-8-like encoder, exact on ASCII and on U+00A0 (`C2 A0`) -/
+private def encN (c : Char) : Str :=
+  if c.toNat < 128 then [c] else if c = nbsp then [bC2, nbsp] else [Char.ofNat 0xBF]
+
+private theorem encN_transparent : AsciiTransparent encN := by
+  refine ⟨?_, ?_, ?_, ?_⟩
+  · intro c hc; simp [encN, hc]
+  · intro c hc b hb
+    unfold encN at hb
+    split at hb
+    · omega
+    · split at hb
+      · simp at hb; rcases hb with hb | hb <;> subst hb <;> decide
+      · simp at hb; subst hb; decide
+  · intro c; unfold encN; split
+    · simp
+    · split <;> simp
+  · intro c b hb
+    unfold encN at hb
+    split at hb
+    · simp at hb; subst hb; omega
+    · split at hb
+      · simp at hb; rcases hb with hb | hb <;> subst hb <;> decide
+      · simp at hb; subst hb; decide
+
+/-- **C14-g: the full statement fails** — table `h` / `x\xa0`, `header_is_mandatory=True`,
+`strip_field=True`, `read_mode='b'`: the record holds `x\xc2\xa0`, not the encoding of `x`. -/
+theorem C14_binary_strip_field_cex : ¬ C14_binary_strip_field_stmt := by
+  intro h
+  have := h encN encN_transparent ',' ⟨⟨by decide, by decide, by decide⟩, by decide⟩ (by decide)
+    LF (Or.inl rfl) [['h']] (by simp) (by decide) [[['x', nbsp]]]
+    (by unfold NoBreakRows NoBreak; decide)
+    { stripField := true, binary := true, mandatory := .bool true } ⟨rfl, rfl, rfl, rfl, rfl⟩ rfl
+    (.mandatory rfl rfl)
+  revert this
+  decide
+
+/-- **C14 (strip_line on clean lines, binary read mode).**  As `C14_strip_line_clean`, for
+`read_mode='b'`: on a byte table none of whose written lines begins or ends with an ASCII blank
+(in particular: with a `str.isspace()` character), `strip_line=True` changes nothing — so, by
+`C14_binary_encoded`, binary mode with `strip_line=True` still yields the encoded table. -/
+theorem C14_strip_line_clean_binary (d : Char) (hd : GoodDelim14 d) (eol : Str) (he : Eol eol)
+    (header : Option (List Str)) (rows : List (List Str)) (hc : NoBreakRows (allRows header rows))
+    (hcl : ∀ r ∈ allRows header rows, OuterClean isAsciiWsByte (bodyOf d LF r))
+    (o : Opts) (hp : Plain o d) (hb : o.binary = true) :
+    records (loadCsv { o with stripLine := true } (fileOf false d eol header rows))
+      = records (loadCsv o (fileOf false d eol header rows)) := by
+  rw [fileOf_eq]
+  simp only [withBom, Bool.false_eq_true, if_false]
+  exact csvb_strip_line_clean o hb d hd.1 hp eol he _ hc hcl
+
+/-- the hypothesis of `C14_strip_line_clean` (no `str.isspace()` character at an end of a written
+line) implies the one of `C14_strip_line_clean_binary` -/
+theorem C14_outer_clean_bytes (s : Str) (h : OuterClean isPySpace s) :
+    OuterClean isAsciiWsByte s :=
+  csvb_outerClean_mono isPySpace isAsciiWsByte csvb_ascii_ws_is_space s h
+
+/-- **load_native_csv, blank line before the header** (the standard `csv.DictReader`'s reading,
+not the table): left to find the field names itself (`column_names=None`), `DictReader` takes the
+first record even when it is the empty one, so every line comes back under the key `None`
+(`rest`), the header line included — while `load_csv` skips the blank line and yields the table.
+This is why `C14_native_header_from_file` is stated for files that begin with the header. -/
+theorem C14_native_leading_blank_cex :
+    nativeCsv { } ['\n', 'a', ',', 'b', '\n', '1', ',', '2', '\n']
+      = .ok [⟨[], some [['a'], ['b']]⟩, ⟨[], some [['1'], ['2']]⟩]
+    ∧ records (loadCsv { mandatory := .bool true } ['\n', 'a', ',', 'b', '\n', '1', ',', '2', '\n'])
+      = .ok [[(.name ['a'], some ['1']), (.name ['b'], some ['2'])]] := ⟨by decide, by decide⟩
+
 section NonVacuityReaders
 private def hdrP : List Str := [[' ', 'a'], ['b', ' ', ' ']]
 private def rowsP : List (List Str) := [[['1', ' '], [' ', '"', '2']], [], [[' ']], [['4'], [' '], ['6']]]
@@ -804,6 +1039,26 @@ example : records (loadCsv { skipEmpty := false, mandatory := .bool true } (file
 example : OuterClean isPySpace ['a', ' ', 'b'] := by
   constructor <;> intro x hx <;> simp at hx <;> subst hx <;> decide
 example : PlainCell ',' ['a', ' ', 'b'] := by unfold PlainCell NoBreak; decide
+-- strip options in binary read mode: a table with U+00A0 *inside* cells and ASCII blanks around them is
+-- outside the class of C14-g; its UTF-8 bytes read with `strip_field=True`, `read_mode='b'`
+private def hdrN : List Str := [[' ', 'a', Char.ofNat 0xA0, 'b'], ['c', '\t']]
+private def rowsN : List (List Str) := [[['1', ' '], [' ', '2', Char.ofNat 0xA0, '3', ' ']], [], [['3']]]
+example : ∀ r ∈ hdrN :: rowsN, ∀ f ∈ r, EdgeAscii f := by unfold EdgeAscii; decide
+example : StripFieldBin { stripField := true, binary := true, mandatory := .bool true } ',' :=
+  ⟨rfl, rfl, rfl, rfl, rfl⟩
+example : records (loadCsv { stripField := true, binary := true, mandatory := .bool true }
+      (encS encN (fileOf false ',' CRLF (some hdrN) rowsN)))
+    = .ok [[(.name ['a', bC2, nbsp, 'b'], some ['1']), (.name ['c'], some ['2', bC2, nbsp, '3'])],
+           [(.name ['a', bC2, nbsp, 'b'], some ['3']), (.name ['c'], none)]] := by decide
+example : ¬ EdgeAscii ['x', Char.ofNat 0xA0] := by unfold EdgeAscii; decide
+example : ¬ EdgeAscii [Char.ofNat 0x1C, 'z'] := by unfold EdgeAscii; decide
+private def rowC : List Str := [[Char.ofNat 0xC2, Char.ofNat 0xA0, 'x'], ['y']]
+example : OuterClean isAsciiWsByte (bodyOf ',' LF rowC) := by
+  have h1 : (bodyOf ',' LF rowC).head? = some (Char.ofNat 0xC2) := by decide
+  have h2 : (bodyOf ',' LF rowC).getLast? = some 'y' := by decide
+  constructor
+  · intro x hx; rw [h1] at hx; cases hx; decide
+  · intro x hx; rw [h2] at hx; cases hx; decide
 -- load_native_csv: default arguments (fix C14-f), surplus cells under the key None, blank line skipped
 example : nativeCsv { } (fileOf true ',' CRLF (some hdrAB) rowsX)
     = .ok [⟨[(.name ['a'], some ['1']), (.name ['b', ','], some ['"', '2'])], none⟩,
